@@ -32,6 +32,58 @@ def sexp(e):
     raise ValueError(e)
 
 
+def parse_sexp(text):
+    """inverse of `sexp`"""
+    toks = text.replace("(", " ( ").replace(")", " ) ").split()
+    pos = [0]
+
+    def one():
+        t = toks[pos[0]]
+        pos[0] += 1
+        if t == "N":
+            return ("none",)
+        if t != "(":
+            raise ValueError("bad sexp %r" % text)
+        head = toks[pos[0]]
+        pos[0] += 1
+        if head in ("lit", "p", "rn", "ra", "raise"):
+            v = int(toks[pos[0]])
+            pos[0] += 2
+            return (head, v)
+        if head in ("add", "sub", "mul", "lt"):
+            a = one()
+            b = one()
+            pos[0] += 1
+            return (head, a, b)
+        if head == "if":
+            c = one()
+            a = one()
+            b = one()
+            pos[0] += 1
+            return ("if", c, a, b)
+        if head == "try":
+            a = one()
+            c = toks[pos[0]]
+            pos[0] += 1
+            b = one()
+            pos[0] += 1
+            return ("try", a, c, b)
+        if head == "call":
+            cid = int(toks[pos[0]])
+            pos[0] += 1
+            args = []
+            while toks[pos[0]] != ")":
+                args.append(one())
+            pos[0] += 1
+            return ("call", cid, args)
+        raise ValueError("bad sexp %r" % text)
+
+    e = one()
+    if pos[0] != len(toks):
+        raise ValueError("trailing tokens in %r" % text)
+    return e
+
+
 def subexprs(e):
     yield e
     t = e[0]
@@ -231,7 +283,7 @@ class Gen:
     the first argument decremented under the guard 0 < p0 (so every chain is finite)."""
 
     def __init__(self, rng, n_rn=2, n_ra=2, catch_all_p=0.15, raise_p=0.06, none_p=0.04,
-                 fail_cell_p=0.0, handled_seq_p=0.0, lam_p=0.0):
+                 fail_cell_p=0.0, handled_seq_p=0.0, lam_p=0.0, space_p=0.0):
         self.rng = rng
         self.n_rn, self.n_ra = n_rn, n_ra
         self.catch_all_p, self.raise_p, self.none_p = catch_all_p, raise_p, none_p
@@ -241,8 +293,20 @@ class Gen:
         #                 callee fails) and only then evaluates the rest – handled failures FOLLOWED by whatever
         #                 the rest does, in one evaluation
         #  lam_p          the formula is given as a lambda expression (when the body has no statement-only parts)
+        #  space_p        a cells lives in the child space `S.Ch` (space 1); every formula may then read every
+        #                 reference: by name (resolved in its own space only) or through an attribute path
         self.fail_cell_p, self.handled_seq_p, self.lam_p = fail_cell_p, handled_seq_p, lam_p
+        self.space_p = space_p
+        self.cur_space = 0
+        self.no_try = False     # set per program: no formula handles a failure (the regime of the C02 theorems)
         self.failing = []
+
+    def any_read(self):
+        """a read of any reference, spelled by name or by path whatever space it lives in"""
+        r = self.rng.randrange(self.n_rn + self.n_ra)
+        same = (0 if r < self.n_rn else 1) == self.cur_space
+        by_name = self.rng.random() < (0.55 if same else 0.06)
+        return ("rn" if by_name else "ra", r)
 
     def leaf(self, nparams):
         r = self.rng.random()
@@ -250,6 +314,8 @@ class Gen:
             return ("p", self.rng.randrange(nparams))
         if r < 0.65:
             return ("lit", self.rng.randint(-2, 5))
+        if self.space_p and r < 0.93:
+            return self.any_read()
         if r < 0.80 and self.n_rn:
             return ("rn", self.rng.randrange(self.n_rn))
         if r < 0.93 and self.n_ra:
@@ -276,6 +342,8 @@ class Gen:
             return ("call", j, [self.expr(cid, nparams, arities, depth - 2) for _ in range(ar)])
         if r < 0.80 + self.raise_p:
             return ("raise", self.rng.choice([0, 1, 2, 0, 1, 2, 6]))
+        if r < 0.95 and self.no_try:
+            return ("add", self.leaf(nparams), self.expr(cid, nparams, arities, depth - 1))
         if r < 0.95:
             c = "all" if self.rng.random() < self.catch_all_p else self.rng.choice(["k0", "k1", "k2", "k3", "noneret"])
             return ("try", self.expr(cid, nparams, arities, depth - 1), c, self.expr(cid, nparams, arities, depth - 2))
@@ -292,7 +360,7 @@ class Gen:
                 ("add", rec, e),
                 ("add", ("mul", rec, ("lit", 1)), ("lit", 1)),
             ])
-            if self.rng.random() < 0.15:
+            if self.rng.random() < 0.15 and not self.no_try:
                 step = ("try", step, "all" if self.rng.random() < self.catch_all_p else "k0", ("lit", -1))
             return ("if", ("lt", ("lit", 0), ("p", 0)), step, self.expr(cid, nparams, arities, 1))
         return e
@@ -331,6 +399,8 @@ class Gen:
         for cid in range(ncells):
             nparams = self.rng.choice([0, 1, 1, 1, 2])
             arities.append(nparams)
+            if self.space_p:
+                self.cur_space = 1 if self.rng.random() < self.space_p else 0
             cells.append({
                 "id": cid,
                 "nparams": nparams,
@@ -339,6 +409,8 @@ class Gen:
                 "body": self.body(cid, nparams, arities),
             })
             c = cells[-1]
+            if self.space_p:
+                c["space"] = self.cur_space
             if self.fail_cell_p and self.rng.random() < self.fail_cell_p:
                 c["body"] = self.fail_body(cid, nparams, arities)
                 self.failing.append(cid)
